@@ -447,8 +447,8 @@ def deserialize (doc : PyVal) : Except Err ImgState := do
 
 /-- `Images.deserialize(doc)` on an object that is already in use: the header version and the compose section are
 replaced, the images of the document are ADDED to the ones present (`self.images` is not cleared), each through
-`add` under the document's version; `n0` = first fresh object identity.  (Only the successful outcome is modelled:
-after an exception the real object is left partially updated.) -/
+`add` under the document's version; `n0` = first fresh object identity.  (The successful outcome only; `loadsInto`
+below is the total version that also returns the object an exception leaves behind.) -/
 def deserializeInto (s0 : ImgState) (n0 : Nat) (doc : PyVal) : Except Err ImgState := do
   let ver ← headerDeserialize doc
   let payload ← item doc (L "payload")
@@ -457,6 +457,141 @@ def deserializeInto (s0 : ImgState) (n0 : Nat) (doc : PyVal) : Except Err ImgSta
   let vs ← iter images
   let (s, _) ← loadVariants ver images vs ({ version := ver, compose := comp, cells := s0.cells }, n0)
   .ok { s with version := .str currentVersion }
+
+/-! ## `loads` into an object in use as a TOTAL step: the object as the code leaves it, also after an exception
+
+`Images.deserialize` assigns as it goes: `header.version` first (before it is even validated), then the compose
+fields one by one, then every image through `add` — `self.images` is never cleared and nothing is rolled back.  The
+functions below return the state at the point of the exception. -/
+
+/-- `Header.deserialize` on an object whose header carries `v0`: `self.version = data["header"]["version"]` is the
+first statement, everything that can fail afterwards fails with the new value in place -/
+def headerDeserializeInto (v0 : PyVal) (doc : PyVal) : PyVal × Except Err Unit :=
+  match (item doc (L "header")).bind (fun h => item h (L "version")) with
+  | .error e => (v0, .error e)
+  | .ok ver => (ver, (headerDeserialize doc).map fun _ => ())
+
+/-- `Compose.deserialize(data)` on the object's own compose section `c0`: attribute by attribute, in the order of
+`deserialize_1_0`; the final `validate()` fails with every field already assigned -/
+def Compose.deserializeInto (c0 : Compose) (ver : PyVal) (payload : PyVal) : Compose × Except Err Unit :=
+  match (versionTuple ver).bind (gateEval Gen.gate_composeinfo_Compose_deserialize_0) with
+  | .error e => (c0, .error e)
+  | .ok true => (c0, .error .other)                           -- unmodelled: `deserialize_0_3` (C15's decoder)
+  | .ok false =>
+    match (item payload (L "compose")).bind (fun sec => (item sec (L "id")).map fun id => (sec, id)) with
+    | .error e => (c0, .error e)
+    | .ok (sec, id) =>
+      let c1 := { c0 with id := id }
+      match getD sec (L "label") .none with
+      | .error e => (c1, .error e)
+      | .ok label0 =>
+        let c2 := { c1 with label := pyOr label0 .none }
+        match item sec (L "type") with
+        | .error e => (c2, .error e)
+        | .ok type =>
+          let c3 := { c2 with type := type }
+          match item sec (L "date") with
+          | .error e => (c3, .error e)
+          | .ok date =>
+            let c4 := { c3 with date := date }
+            match item sec (L "respin") with
+            | .error e => (c4, .error e)
+            | .ok respin =>
+              let c5 := { c4 with respin := respin }
+              match getD sec (L "final") (.bool false) with
+              | .error e => (c5, .error e)
+              | .ok final0 =>
+                let c6 := { c5 with final := .bool (pyBool final0) }
+                (c6, c6.validate)
+
+/-- `self.add(variant, arch, image)` with the keys as they come out of the document; the object survives -/
+def addPyT (s : ImgState) (variant arch : PyVal) (id : Nat) (img : Image) : ImgState × Except Err Unit :=
+  match arch with
+  | .str a =>
+    match variant with
+    | .str v => add s v a id img
+    | _ => (s, if !Gen.RPM_ARCHES.contains a || refusedArches.contains a then .error .valueError else .error .other)
+  | _ => (s, .error .valueError)
+
+/-- `_add_1_1`'s loop: an exception in the middle leaves the image filed under the arches already visited -/
+def refileT (s : ImgState) (variant : PyVal) (id : Nat) (img : Image) : List PyVal → ImgState × Except Err Unit
+  | [] => (s, .ok ())
+  | va :: rest =>
+    if pyEq va (.str (L "src")) then refileT s variant id img rest
+    else
+      match addPyT s variant va id img with
+      | (s', .ok ()) => refileT s' variant id img rest
+      | (s', .error e) => (s', .error e)
+
+def fileLoadedT (old : Bool) (s : ImgState) (images variant arch : PyVal) (n : Nat) (img : Image) : ImgState × Except Err Unit :=
+  if old then
+    if pyEq arch (.str (L "src")) then
+      match (subscript images variant).bind iter with
+      | .ok archs => refileT s variant n img archs
+      | .error e => (s, .error e)
+    else addPyT s variant arch n img
+  else addPyT s variant arch n img
+
+/-- what is read of one image dictionary before it is filed -/
+def readLoaded (ver : PyVal) (d : PyVal) : Except Err (Image × Bool) := do
+  let img ← Image.deserialize ver d
+  let vt ← versionTuple ver
+  let old ← gateEval Gen.gate_images_Images_deserialize_0 vt
+  .ok (img, old)
+
+def loadCellT (ver : PyVal) (images variant arch : PyVal) : List PyVal → ImgState × Nat → (ImgState × Nat) × Except Err Unit
+  | [], acc => (acc, .ok ())
+  | d :: rest, (s, n) =>
+    match readLoaded ver d with
+    | .error e => ((s, n + 1), .error e)
+    | .ok (img, old) =>
+      match fileLoadedT old s images variant arch n img with
+      | (s', .ok ()) => loadCellT ver images variant arch rest (s', n + 1)
+      | (s', .error e) => ((s', n + 1), .error e)
+
+def loadArchesT (ver : PyVal) (images variant archs : PyVal) : List PyVal → ImgState × Nat → (ImgState × Nat) × Except Err Unit
+  | [], acc => (acc, .ok ())
+  | a :: rest, acc =>
+    match (subscript archs a).bind iter with
+    | .error e => (acc, .error e)
+    | .ok cell =>
+      match loadCellT ver images variant a cell acc with
+      | (acc', .ok ()) => loadArchesT ver images variant archs rest acc'
+      | (acc', .error e) => (acc', .error e)
+
+def loadVariantsT (ver : PyVal) (images : PyVal) : List PyVal → ImgState × Nat → (ImgState × Nat) × Except Err Unit
+  | [], acc => (acc, .ok ())
+  | v :: rest, acc =>
+    match (subscript images v).bind (fun archs => (iter archs).map fun keys => (archs, keys)) with
+    | .error e => (acc, .error e)
+    | .ok (archs, keys) =>
+      match loadArchesT ver images v archs keys acc with
+      | (acc', .ok ()) => loadVariantsT ver images rest acc'
+      | (acc', .error e) => (acc', .error e)
+
+/-- `images.loads(text)` on an object in use (`doc` = the parsed text; a text that does not parse leaves the object
+untouched and is outside the model): the object afterwards — whatever happened — and whether the call raised.
+On success the header carries the current version; on failure it carries whatever `Header.deserialize` assigned
+(the document's version, valid or not), the compose fields assigned so far, and the images present before plus the
+ones filed before the exception. -/
+def loadsInto (s0 : ImgState) (n0 : Nat) (doc : PyVal) : ImgState × Except Err Unit :=
+  match headerDeserializeInto s0.version doc with
+  | (ver, .error e) => ({ s0 with version := ver }, .error e)
+  | (ver, .ok ()) =>
+    let s1 : ImgState := { s0 with version := ver }
+    match item doc (L "payload") with
+    | .error e => (s1, .error e)
+    | .ok payload =>
+      match Compose.deserializeInto s0.compose ver payload with
+      | (c, .error e) => ({ s1 with compose := c }, .error e)
+      | (c, .ok ()) =>
+        let s2 : ImgState := { s1 with compose := c }
+        match (item payload (L "images")).bind (fun images => (iter images).map fun vs => (images, vs)) with
+        | .error e => (s2, .error e)
+        | .ok (images, vs) =>
+          match loadVariantsT ver images vs (s2, n0) with
+          | (acc, .error e) => (acc.1, .error e)
+          | (acc, .ok ()) => ({ acc.1 with version := .str currentVersion }, validateClass "images.Images" [])
 
 /-- an operation of a history that may cross the version gate -/
 inductive HOp where
@@ -476,16 +611,13 @@ def cellsDiscard (cs : Cells) (v a : Str) (id : Nat) : Cells :=
 /-- `del images[v]` -/
 def cellsDelVariant (cs : Cells) (v : Str) : Cells := cs.filter fun va => va.1 != v
 
-/-- one step of such a history: the object afterwards and whether the call raised (after a failed `loads` the
-state is not modelled: it is returned unchanged and histories end there) -/
+/-- one step of such a history: the object afterwards and whether the call raised; total — after a failed `loads`
+the object is in the state `loadsInto` describes and the history goes on -/
 def hstep (s : ImgState) : HOp → ImgState × Except Err Unit
   | .add op => add s op.variant op.arch op.id op.img
   | .dumps => ((dumps s).1, match (dumps s).2 with | .ok _ => .ok () | .error e => .error e)
   | .setVersion v => ({ s with version := v }, .ok ())
-  | .loads doc n0 =>
-    match deserializeInto s n0 doc with
-    | .ok s' => (s', .ok ())
-    | .error e => (s, .error e)
+  | .loads doc n0 => loadsInto s n0 doc
   | .discard v a id => ({ s with cells := cellsDiscard s.cells v a id }, .ok ())
   | .delVariant v => ({ s with cells := cellsDelVariant s.cells v }, .ok ())
 
